@@ -26,6 +26,12 @@ def gen(tier, seed):
                 n_grid = len(datasets.expected_grids(spec)[kind])
                 for perm in itertools.permutations(range(n_grid + ne)):
                     yield {'spec': spec, 'kind': kind, 'n_extra': ne, 'perm': list(perm)}
+    # a mesh that names an edge dimension on which no variable is defined (the dimension has no size): faces and nodes as ever
+    unsized = {'conv': 'ugrid', 'ny': 2, 'nx': 2, 'edge_dimension': True, 'edge_values': False}
+    for kind in ('face', 'node'):
+        for ne in range(2):
+            for perm in itertools.permutations(range(1 + ne)):
+                yield {'spec': unsized, 'kind': kind, 'n_extra': ne, 'perm': list(perm)}
 
 
 def test(inp):
